@@ -32,6 +32,103 @@ def all_same(values, what):
 def lean_str(s):
     return '"' + s.replace('\\', '\\\\').replace('"', '\\"') + '"'
 
+
+# ---------------------------------------------------------------------------------------------
+# a small translator for arithmetic: Rust expressions over Decimal -> Lean expressions over Rat.
+# Handles identifiers (with `*` deref, `.field`, `self.`, `name()` mapped through `env`), `Decimal::ZERO`,
+# `+ - * /`, parentheses, `.min(e)` / `.max(e)`, and `if a != Decimal::ZERO { e1 } else { e2 }`.
+# Anything else is an error: the expression is then not what the model's formula was proved equal to.
+class _Expr:
+    def __init__(self, text, env, where):
+        self.toks = re.findall(r"Decimal::ZERO|Decimal::ONE|[A-Za-z_][A-Za-z_0-9]*(?:\(\))?|\d+|!=|==|[-+*/().{}]", text)
+        if "".join(self.toks) != re.sub(r"\s+", "", text):
+            raise Missing(f"{where}: expression not in the translatable fragment: {text.strip()!r}")
+        self.i = 0; self.env = env; self.where = where; self.text = text.strip()
+    def peek(self):
+        return self.toks[self.i] if self.i < len(self.toks) else None
+    def eat(self, t=None):
+        x = self.peek()
+        if x is None or (t is not None and x != t):
+            raise Missing(f"{self.where}: cannot translate {self.text!r} (at token {self.i}: {x!r}, wanted {t!r})")
+        self.i += 1
+        return x
+    def parse(self):
+        e = self.expr()
+        if self.peek() is not None:
+            raise Missing(f"{self.where}: trailing tokens in {self.text!r}")
+        return e
+    def expr(self):
+        if self.peek() == "if":
+            self.eat("if"); a = self.sum(); op = self.eat()
+            if op not in ("!=", "=="):
+                raise Missing(f"{self.where}: condition of {self.text!r} is not a comparison with zero")
+            z = self.sum()
+            self.eat("{"); e1 = self.expr(); self.eat("}"); self.eat("else"); self.eat("{"); e2 = self.expr(); self.eat("}")
+            return f"(if {a} {'≠' if op == '!=' else '='} {z} then {e1} else {e2})"
+        return self.sum()
+    def sum(self):
+        e = self.term()
+        while self.peek() in ("+", "-"):
+            op = self.eat(); r = self.term(); e = f"({e} {op} {r})"
+        return e
+    def term(self):
+        e = self.factor()
+        while self.peek() in ("*", "/"):
+            op = self.eat(); r = self.factor(); e = f"({e} {op} {r})"
+        return e
+    def factor(self):
+        t = self.peek()
+        if t == "*":            # deref
+            self.eat("*"); return self.factor()
+        if t == "(":
+            self.eat("("); e = self.expr(); self.eat(")")
+        elif t == "Decimal::ZERO":
+            self.eat(); e = "0"
+        elif t == "Decimal::ONE":
+            self.eat(); e = "1"
+        elif t is not None and re.fullmatch(r"\d+", t):
+            e = self.eat()
+        elif t is not None and re.fullmatch(r"[A-Za-z_][A-Za-z_0-9]*(?:\(\))?", t):
+            name = self.eat()
+            while self.peek() == "." and self.i + 1 < len(self.toks) and self.toks[self.i + 1] not in ("min", "max"):
+                self.eat("."); name += "." + self.eat()
+            if name not in self.env:
+                raise Missing(f"{self.where}: unexpected name {name!r} in {self.text!r}")
+            e = self.env[name]
+        else:
+            raise Missing(f"{self.where}: cannot translate {self.text!r} (at {t!r})")
+        while self.peek() == ".":
+            self.eat("."); m = self.eat()
+            if m not in ("min", "max"):
+                raise Missing(f"{self.where}: method {m!r} in {self.text!r}")
+            self.eat("("); a = self.expr(); self.eat(")")
+            e = f"({m} {e} {a})"
+        return e
+
+def rust_expr(text, env, where):
+    return _Expr(text, env, where).parse()
+
+def fn_body(rel, name):
+    src = read(rel).split("#[cfg(test)]")[0]
+    m = re.search(r"fn " + re.escape(name) + r"\s*(?:<[^>]*>)?\(", src)
+    if not m:
+        raise Missing(f"{rel}: fn {name} not found")
+    i = src.find("{", m.end())
+    depth = 0
+    for j in range(i, len(src)):
+        if src[j] == "{": depth += 1
+        elif src[j] == "}":
+            depth -= 1
+            if depth == 0:
+                return src[i:j + 1]
+    raise Missing(f"{rel}: fn {name}: unbalanced braces")
+
+def stmt(body, pattern, where):
+    ms = list(re.finditer(pattern, body, re.S))
+    if len(ms) != 1:
+        raise Missing(f"{where}: expected exactly one statement matching {pattern!r}, found {len(ms)}")
+    return ms[0]
+
 GROUPS = {}   # group name -> list of Lean definitions
 ERRORS = {}   # group name -> message
 
@@ -300,6 +397,154 @@ def main():
         m = one(aw, r"for days_back in (\d+)\.\.=(\d+)", what="RSU look-back loop")
         return [f"def rsuLookbackFrom : Int := {m.group(1)}", f"def rsuLookbackDays : Int := {m.group(2)}"]
 
+
+    @group("formulas")
+    def _():
+        out = []
+        mod = "crates/cgt-core/src/matcher/mod.rs"
+        s104 = "crates/cgt-core/src/matcher/section104.rs"
+        sd = "crates/cgt-core/src/matcher/same_day.rs"
+        al = "crates/cgt-core/src/matcher/acquisition_ledger.rs"
+        # compute_proceeds(matched_qty, sell_qty, sell_price, sell_fees)
+        b = fn_body(mod, "compute_proceeds")
+        stmt(b, r"if sell_qty == Decimal::ZERO \{\s*return ProportionalProceeds \{\s*gross_proceeds: Decimal::ZERO,\s*fees: Decimal::ZERO,\s*net_proceeds: Decimal::ZERO,\s*\};\s*\}", "compute_proceeds: zero-quantity guard")
+        P = "(matched_qty sell_qty sell_price sell_fees : Rat)"
+        A = "matched_qty sell_qty sell_price sell_fees"
+        env = {k: k for k in A.split()}
+        for name in ["proportion", "gross_proceeds", "fees", "net_proceeds"]:
+            m = stmt(b, r"let " + name + r" = ([^;]+);", f"compute_proceeds: let {name}")
+            out.append(f"def Gen.cp_{name} {P} : Rat := " + rust_expr(m.group(1), env, f"compute_proceeds: {name}"))
+            env[name] = f"(Gen.cp_{name} {A})"
+        stmt(b, r"ProportionalProceeds \{\s*gross_proceeds,\s*fees,\s*net_proceeds,\s*\}\s*\}$", "compute_proceeds: result record")
+        # match_section_104: quantities and costs
+        b = fn_body(s104, "match_section_104")
+        P = "(remaining pool_quantity pool_total_cost : Rat)"
+        A = "remaining pool_quantity pool_total_cost"
+        env = {"remaining": "remaining", "pool.quantity": "pool_quantity", "pool.total_cost": "pool_total_cost"}
+        for name in ["matched_qty", "unit_cost", "cost"]:
+            m = stmt(b, r"let " + name + r" = ((?:[^;{}]|\{[^{}]*\})+);", f"match_section_104: let {name}")
+            out.append(f"def Gen.s104_{name} {P} : Rat := " + rust_expr(m.group(1), env, f"match_section_104: {name}"))
+            env[name] = f"(Gen.s104_{name} {A})"
+        for target, lean in [("pool.quantity", "new_quantity"), ("pool.total_cost", "new_total_cost"), ("*remaining", "new_remaining")]:
+            m = stmt(b, re.escape(target) + r" -= ([^;]+);", f"match_section_104: {target} -=")
+            base = env[target.lstrip("*")]
+            out.append(f"def Gen.s104_{lean} {P} : Rat := ({base} - " + rust_expr(m.group(1), env, f"match_section_104: {target}") + ")")
+        m = stmt(b, r"let gain_or_loss = ([^;]+);", "match_section_104: gain")
+        out.append("def Gen.s104_gain (net cost : Rat) : Rat := " + rust_expr(m.group(1), {"proceeds.net_proceeds": "net", "cost": "cost"}, "match_section_104: gain"))
+        stmt(b, r"rule: MatchRule::Section104,\s*quantity: matched_qty,\s*allowable_cost: cost,\s*gain_or_loss,\s*acquisition_date: None,", "match_section_104: leg fields")
+        # match_same_day
+        b = fn_body(sd, "match_same_day")
+        m = stmt(b, r"let matched_qty = ([^;]+);", "match_same_day: matched_qty")
+        out.append("def Gen.sd_matched_qty (remaining available : Rat) : Rat := " + rust_expr(m.group(1), {"remaining": "remaining", "available": "available"}, "match_same_day: matched_qty"))
+        m = stmt(b, r"\*remaining -= ([^;]+);", "match_same_day: remaining -=")
+        out.append("def Gen.sd_new_remaining (remaining matched_qty : Rat) : Rat := (remaining - " + rust_expr(m.group(1), {"matched_qty": "matched_qty"}, "match_same_day: remaining") + ")")
+        m = stmt(b, r"let gain_or_loss = ([^;]+);", "match_same_day: gain")
+        out.append("def Gen.sd_gain (net cost : Rat) : Rat := " + rust_expr(m.group(1), {"proceeds.net_proceeds": "net", "cost": "cost"}, "match_same_day: gain"))
+        stmt(b, r"if available > Decimal::ZERO && \*remaining > Decimal::ZERO \{", "match_same_day: guard")
+        # a lot's figures
+        for fname, params, env in [
+            ("adjusted_cost", "(base_cost cost_offset : Rat)", {"self.base_cost()": "base_cost", "self.cost_offset": "cost_offset"}),
+            ("adjusted_unit_cost", "(adjusted_cost original_amount : Rat)", {"self.adjusted_cost()": "adjusted_cost", "self.original_amount": "original_amount"}),
+            ("held_for_adjustment", "(original_amount consumed : Rat)", {"self.original_amount": "original_amount", "self.consumed": "consumed"}),
+            ("base_cost", "(original_amount price expenses : Rat)", {"self.original_amount": "original_amount", "self.price": "price", "self.expenses": "expenses"}),
+        ]:
+            b = fn_body(al, fname)
+            inner = b.strip()[1:-1]
+            out.append(f"def Gen.lot_{fname} {params} : Rat := " + rust_expr(inner, env, f"acquisition_ledger.rs: {fname}"))
+        # apply_cost_adjustment: the share of one lot
+        b = fn_body(al, "apply_cost_adjustment")
+        stmt(b, r"if total_held == Decimal::ZERO \{\s*return;\s*\}", "apply_cost_adjustment: nothing held")
+        stmt(b, r"if held > Decimal::ZERO \{", "apply_cost_adjustment: lots still held only")
+        m = stmt(b, r"let apportioned = ([^;]+);", "apply_cost_adjustment: apportioned")
+        out.append("def Gen.adj_apportioned (adjustment held total_held : Rat) : Rat := " + rust_expr(m.group(1), {"adjustment": "adjustment", "held": "held", "total_held": "total_held"}, "apply_cost_adjustment"))
+        m = stmt(b, r"lot\.cost_offset \+= ([^;]+);", "apply_cost_adjustment: offset +=")
+        out.append("def Gen.adj_new_offset (cost_offset apportioned : Rat) : Rat := (cost_offset + " + rust_expr(m.group(1), {"apportioned": "apportioned"}, "apply_cost_adjustment") + ")")
+        # preprocess: the three places that merge two trades must all use the same formula
+        b = fn_body(mod, "preprocess") + fn_body(mod, "coalesce_same_day_buys")
+        sites = []
+        pat = re.compile(r"let (total_cost|total_proceeds) =\s*([^;]+);\s*\*(\w+) \+= \*?(\w+);\s*if \*(\w+) != Decimal::ZERO \{\s*\*(\w+) = ([^;]+);\s*\}\s*\*(\w+) \+= \*?(\w+);")
+        for m in pat.finditer(b):
+            tname, tot, amt, namt, amt2, price, pexpr, fees, nfees = m.groups()
+            if amt != amt2:
+                raise Missing("preprocess: the merged amount and the tested amount differ")
+            nprice = {"next_amount": "next_price"}.get(namt)
+            env = {amt: "q", price: "p", namt: "q'", "next_price": "p'"}
+            t = rust_expr(tot, env, "preprocess: total_cost")
+            pe = rust_expr(pexpr, {tname: "total", amt: "qq"}, "preprocess: merged price")
+            sites.append((t, pe, fees.endswith("fees") and nfees.endswith("fees")))
+        if len(sites) != 3:
+            raise Missing(f"preprocess: expected three merge sites (BUY/BUY, SELL/SELL, coalescing), found {len(sites)}")
+        t = all_same([x[0] for x in sites], "preprocess: total cost of a merge")
+        pe = all_same([x[1] for x in sites], "preprocess: price of a merge")
+        if not all(x[2] for x in sites):
+            raise Missing("preprocess: a merge does not add the fees")
+        # process_sell: the holding a disposal is tested against
+        b = fn_body(mod, "process_sell")
+        m = stmt(b, r"let total_held = ([^;]+);", "process_sell: total_held")
+        out.append("def Gen.sell_total_held (ledger_held pool_held already_sold : Rat) : Rat := " + rust_expr(m.group(1), {k: k for k in ["ledger_held", "pool_held", "already_sold"]}, "process_sell: total_held"))
+        stmt(b, r"if \*amount > total_held \{\s*return Err\(", "process_sell: refusal test `*amount > total_held`")
+        # move_buy_to_pool: what is left of the day's purchase joins the pool
+        b = fn_body(mod, "move_buy_to_pool")
+        stmt(b, r"if remaining > Decimal::ZERO \{", "move_buy_to_pool: guard")
+        m = stmt(b, r"pool\.quantity \+= ([^;]+);", "move_buy_to_pool: quantity +=")
+        out.append("def Gen.pool_add_quantity (pool_quantity remaining : Rat) : Rat := (pool_quantity + " + rust_expr(m.group(1), {"remaining": "remaining"}, "move_buy_to_pool") + ")")
+        m = stmt(b, r"pool\.total_cost \+= ([^;]+);", "move_buy_to_pool: total_cost +=")
+        out.append("def Gen.pool_add_cost (pool_total_cost cost : Rat) : Rat := (pool_total_cost + " + rust_expr(m.group(1), {"cost": "cost"}, "move_buy_to_pool") + ")")
+        # process_corporate_action: SPLIT multiplies the pooled quantity, UNSPLIT divides it (unless the ratio is zero)
+        b = fn_body(mod, "process_corporate_action")
+        m = stmt(b, r"Operation::Split \{ ratio \} => \{\s*if let Some\(pool\) = self\.pools\.get_mut\(&tx\.ticker\) \{\s*pool\.quantity \*= ([^;]+);", "process_corporate_action: SPLIT")
+        out.append("def Gen.split_quantity (pool_quantity ratio : Rat) : Rat := (pool_quantity * " + rust_expr(m.group(1), {"ratio": "ratio"}, "SPLIT") + ")")
+        m = stmt(b, r"Operation::Unsplit \{ ratio \} => \{\s*if let Some\(pool\) = self\.pools\.get_mut\(&tx\.ticker\)\s*&& \*ratio != Decimal::ZERO\s*\{\s*pool\.quantity /= ([^;]+);", "process_corporate_action: UNSPLIT")
+        out.append("def Gen.unsplit_quantity (pool_quantity ratio : Rat) : Rat := (pool_quantity / " + rust_expr(m.group(1), {"ratio": "ratio"}, "UNSPLIT") + ")")
+        # the 30-day rule's arithmetic (bed_and_breakfast.rs)
+        def tail(body, where):
+            m = re.search(r";\s*\n\s*([^;{}]+?)\s*\}$", body)
+            if not m:
+                raise Missing(f"{where}: no tail expression")
+            return m.group(1)
+        b = fn_body(bnb, "available_for_bnb_after_reservations")
+        env = {"buy_amount": "buy_amount", "same_day_claim": "same_day_claim", "already_reserved": "already_reserved"}
+        m = stmt(b, r"let reserve_now = ([^;]+);", "available_for_bnb_after_reservations: reserve_now")
+        rn = rust_expr(m.group(1), env, "available_for_bnb_after_reservations: reserve_now")
+        env["reserve_now"] = rn
+        out.append("def Gen.bnb_available (buy_amount same_day_claim already_reserved : Rat) : Rat := " + rust_expr(tail(b, "available_for_bnb_after_reservations"), env, "available_for_bnb_after_reservations"))
+        b = fn_body(bnb, "matched_buy_cost")
+        P = "(matched_qty_at_buy_time buy_amount buy_price buy_fees cost_offset : Rat)"
+        A = "matched_qty_at_buy_time buy_amount buy_price buy_fees cost_offset"
+        env = {k: k for k in A.split()}
+        for name in ["total_cost", "unit_cost"]:
+            m = stmt(b, r"let " + name + r" = ((?:[^;{}]|\{[^{}]*\})+);", f"matched_buy_cost: let {name}")
+            out.append(f"def Gen.bnb_{name} {P} : Rat := " + rust_expr(m.group(1), env, f"matched_buy_cost: {name}"))
+            env[name] = f"(Gen.bnb_{name} {A})"
+        out.append(f"def Gen.bnb_matched_cost {P} : Rat := " + rust_expr(tail(b, "matched_buy_cost"), env, "matched_buy_cost"))
+        b = fn_body(bnb, "matched_quantities_with_split_ratio")
+        P = "(remaining_at_sell_time available_at_buy_time cumulative_ratio_effect : Rat)"
+        A = "remaining_at_sell_time available_at_buy_time cumulative_ratio_effect"
+        env = {k: k for k in A.split()}
+        for name in ["available_at_sell_time", "matched_qty_at_sell_time", "matched_qty_at_buy_time"]:
+            m = stmt(b, r"let " + name + r" = ([^;]+);", f"matched_quantities_with_split_ratio: let {name}")
+            out.append(f"def Gen.bnb_{name} {P} : Rat := " + rust_expr(m.group(1), env, f"matched_quantities_with_split_ratio: {name}"))
+            env[name] = f"(Gen.bnb_{name} {A})"
+        stmt(b, r"\(matched_qty_at_sell_time, matched_qty_at_buy_time\)\s*\}$", "matched_quantities_with_split_ratio: result pair")
+        b = fn_body(bnb, "reserve_future_buy_consumption")
+        stmt(b, r"let reserved_entry = future_consumption\.entry\(idx\)\.or_insert\(Decimal::ZERO\);", "reserve_future_buy_consumption: entry")
+        m = stmt(b, r"\*reserved_entry \+= ([^;]+);", "reserve_future_buy_consumption: +=")
+        out.append("def Gen.bnb_new_reserved (reserved matched_qty_at_buy_time : Rat) : Rat := (reserved + " + rust_expr(m.group(1), {"matched_qty_at_buy_time": "matched_qty_at_buy_time"}, "reserve_future_buy_consumption") + ")")
+        b = fn_body(bnb, "outstanding_bnb_claims")
+        m = stmt(b, r"if ratio != Decimal::ZERO \{\s*total \+= ([^;]+);", "outstanding_bnb_claims: total +=")
+        out.append("def Gen.bnb_outstanding_add (total qty_at_buy_time ratio : Rat) : Rat := (total + " + rust_expr(m.group(1), {"qty_at_buy_time": "qty_at_buy_time", "ratio": "ratio"}, "outstanding_bnb_claims") + ")")
+        b = fn_body(bnb, "apply_split_ratio_effect")
+        m = stmt(b, r"Operation::Split \{ ratio \} => \{\s*\*cumulative_ratio_effect \*= ([^;]+);", "apply_split_ratio_effect: SPLIT")
+        out.append("def Gen.bnb_ratio_split (cumulative_ratio_effect ratio : Rat) : Rat := (cumulative_ratio_effect * " + rust_expr(m.group(1), {"ratio": "ratio"}, "apply_split_ratio_effect") + ")")
+        m = stmt(b, r"Operation::Unsplit \{ ratio \} => \{\s*if \*ratio != Decimal::ZERO \{\s*\*cumulative_ratio_effect /= ([^;]+);", "apply_split_ratio_effect: UNSPLIT")
+        out.append("def Gen.bnb_ratio_unsplit (cumulative_ratio_effect ratio : Rat) : Rat := (cumulative_ratio_effect / " + rust_expr(m.group(1), {"ratio": "ratio"}, "apply_split_ratio_effect") + ")")
+        b = fn_body(bnb, "build_bnb_match")
+        m = stmt(b, r"let gain_or_loss = ([^;]+);", "build_bnb_match: gain")
+        out.append("def Gen.bnb_gain (net cost : Rat) : Rat := " + rust_expr(m.group(1), {"proceeds.net_proceeds": "net", "cost": "cost"}, "build_bnb_match: gain"))
+        out.append(f"def Gen.merge_total (q p q' p' : Rat) : Rat := {t}")
+        out.append(f"def Gen.merge_price (total qq : Rat) : Rat := {pe}")
+        return out
+
     # a group whose anchor is missing keeps the definitions of the last generated file, and is
     # reported in build/extract_status.json; ./check fails the properties that depend on it
     old = None
@@ -307,7 +552,7 @@ def main():
         old = open(OUT, encoding="utf-8").read()
     except OSError:
         pass
-    order = ["window", "taxyear", "mcp_year", "disposal_round", "exemptions", "money_round", "pdf_round", "grammar", "writer", "validator", "cascade", "cli_join", "rsu"]
+    order = ["window", "taxyear", "mcp_year", "disposal_round", "exemptions", "money_round", "pdf_round", "grammar", "writer", "validator", "cascade", "cli_join", "rsu", "formulas"]
     lines = []
     for gname in order:
         if gname in GROUPS:
@@ -324,7 +569,7 @@ def main():
                 sys.exit(2)
             lines.append(f"-- group {gname}")
             lines.extend(kept)
-    body = "-- GENERATED by tools/extract.py from /repo sources on every run. Do not edit.\nnamespace Cgt\n" + "\n".join(lines) + "\nend Cgt\n"
+    body = "-- GENERATED by tools/extract.py from /repo sources on every run. Do not edit.\nset_option linter.unusedVariables false\nnamespace Cgt\n" + "\n".join(lines) + "\nend Cgt\n"
     import json
     os.makedirs("/verif/build", exist_ok=True)
     json.dump({"failed": ERRORS}, open("/verif/build/extract_status.json", "w"), indent=1)
